@@ -93,3 +93,55 @@ package server
 //@   ensures [roundtrip] ret1 == nil ==> indexOf(ret0, ":") >= 0 && has(s.NamespaceManager.prefixToExpansionMapping, ret0[:indexOf(ret0, ":")])
 //@     | && s.NamespaceManager.prefixToExpansionMapping[ret0[:indexOf(ret0, ":")]] + ret0[indexOf(ret0, ":")+1:] == val
 //@   ensures [only-http] ret1 == nil ==> hasPrefix(val, "http://") || hasPrefix(val, "https://")
+
+// ---------------------------------------------------------------------------
+// C20: backup
+
+//@ spec cursorPath(loc string) string = loc + "/" + "datahub-backup.lastseen"
+//@ spec backupFilePath(loc string) string = loc + "/" + "datahub-backup.kv"
+
+//@ unit (*BackupManager).StoreLastID
+//@   prop C20
+//@   requires backupManager != nil
+//@   modifies $writable, $appending, $opened, Enc.LE64, []uint8
+//@   at call Create#1 before
+//@     assert [cursor-path-written] name == cursorPath(backupManager.backupLocation)
+
+//@ unit (*BackupManager).LoadLastID
+//@   prop C20
+//@   requires backupManager != nil
+//@   ensures [no-cursor-means-zero] !readable(cursorPath(backupManager.backupLocation)) ==> ret0 == 0 && ret1 == nil
+//@   at call Open#1 before
+//@     assert [cursor-path-read] name == cursorPath(backupManager.backupLocation)
+
+//@ unit (*BackupManager).DoNativeBackup
+//@   prop C20
+//@   requires backupManager != nil && backupManager.store != nil
+//@   ensures [ack-means-cursor-advanced] result == nil ==> backupManager.lastID == backupMax(backupManager.store.database, old(backupManager.lastID)) && backupManager.lastID >= old(backupManager.lastID)
+//@   ensures [cursor-only-from-completed-backup] backupManager.lastID == old(backupManager.lastID) || backupManager.lastID == backupMax(backupManager.store.database, old(backupManager.lastID))
+//@   at call OpenFile#1 before
+//@     assert [backup-file-path] name == backupFilePath(backupManager.backupLocation)
+
+//@ assumed (*BackupManager).fileExists
+//@   pure
+//@ assumed (*BackupManager).DoRsyncBackup
+//@   preserves BackupManager.*
+
+//@ unit (*BackupManager).Run
+//@   prop C20
+//@   ghost validG bool = false
+//@   requires backupManager != nil && backupManager.store != nil
+//@   at call validLocation#1
+//@     ghost validG := $result
+//@   at call DoNativeBackup#1 before
+//@     assert [foreign-location-never-written] validG
+//@   at call DoRsyncBackup#1 before
+//@     assert [foreign-location-never-synced] validG
+
+//@ unit (*BackupManager).validLocation
+//@   prop C20
+//@   requires backupManager != nil && backupManager.store != nil
+//@   ensures [foreign-location-refused] result && readable(backupManager.backupLocation + "/" + "DATAHUB_BACKUPID")
+//@     | ==> fileText(backupManager.store.storeLocation + "/" + "DATAHUB_BACKUPID") == fileText(backupManager.backupLocation + "/" + "DATAHUB_BACKUPID")
+//@   ensures [own-id-required] result ==> readable(backupManager.store.storeLocation + "/" + "DATAHUB_BACKUPID")
+//@   modifies $writable, $appending, $opened, []interface{}, []string, []uint8
